@@ -324,6 +324,28 @@ def compare_class(prog, cls):
                     v = it["v"]
                 if v[0] == "bits":
                     _compare_bits(it, dec, ren, note, header=True)
+        # ---- a decoder that refuses what is too short: not shorter than the shortest body the encoder writes on this combination
+        for rj in getattr(dec, "rejects", []):
+            def minsize(it):
+                k = it["kind"]
+                return Lin(1) if k == "byte" else Lin(2) if k == "u16" else Lin(2, (it["sym"],)) if k == "str" else Lin(0)
+            ends = []
+            for it in body:
+                if any(str(sy).startswith(("rest", "opt@", "iter")) for sy in it["off"].syms):
+                    continue
+                ends.append(it["off"].add(minsize(it)))
+            if not ends:
+                continue
+            total = max(ends, key=lambda l: (len(l.syms), l.c))
+            T = ren_lin(rj["T"], ren)
+            cur = ren_lin(rj["cursor"], ren)
+            left = Lin(total.c - cur.c, tuple(sorted(set(total.syms) - set(cur.syms)))) if set(cur.syms) <= set(total.syms) else None
+            if left is None or tuple(sorted(T.syms)) != tuple(sorted(left.syms)):
+                raise AnalysisError("decoder of %s: the length test %s cannot be compared with the encoder's layout" % (cls.name, rj["text"]))
+            if T.c >= left.c:
+                note("L3", "refuses-valid", "the decoder refuses its input when %s - that is with len <= %s bytes left - but on this combination the "
+                     "encoder writes a body with exactly %s bytes there: a well-formed packet (nothing after that field: an empty payload) "
+                     "is rejected" % (rj["text"], T, left), rj["node"])
         # ... and the converse, for the first byte: a field the decoder takes from it that the encoder, on this combination of its own
         # guards, does not or into it (retain only written when qos != 0).  Not for the field whose own falsehood is the assumption (qos
         # under `if self.qos`: what is left out is 0) and not for DUP at QoS 0, which the specification fixes at 0 [MQTT-3.3.1-2]
